@@ -61,3 +61,95 @@ Proof.
   destruct (bulk_error_iff_thrown cf sched Hg s Hs) as [_ [H2 _]].
   apply H2. intros E. fold g in E. rewrite E in Hin. destruct Hin.
 Qed.
+
+(* ---- a call returns only if it was entered: the exit log is contained in the call log, and a thread
+   inside f(i) has i in the call log — every reachable state, no guard needed *)
+Local Close Scope N_scope. Local Open Scope N_scope.
+Definition in_call (l : bpc) : option N := match l with BCall _ _ i _ => Some i | _ => None end.
+
+Definition ExitInv (g : bshared) (ls : nat -> bpc) : Prop :=
+  (forall x, In x (exits g) -> called g x) /\
+  (forall t i, in_call (ls t) = Some i -> called g i).
+
+(* every step keeps the call log or extends it at the head *)
+Lemma bstep_calls cf o t g l :
+  let g' := fst (bstep cf o t g l) in
+  calls g' = calls g \/ exists i v, calls g' = (i, v) :: calls g.
+Proof.
+  cbn zeta. destruct l; cbn [bstep].
+  - destruct (spawned g t); left; reflexivity.
+  - destruct (cn cf =? 0); [left; reflexivity|]. destruct (get_chunk_size _ _); left; reflexivity.
+  - destruct (_ <=? _)%nat; [left; reflexivity|]. destruct (Nat.eqb _ _); [left; reflexivity|].
+    destruct (range_empty _); left; reflexivity.
+  - destruct (pop_step _ _ _ _ _) as [qs' r]. destruct r as [p'|[idx|]]; left; reflexivity.
+  - destruct (i <? e); [right; eexists; eexists; reflexivity|left; reflexivity].
+  - left; reflexivity.
+  - left; reflexivity.
+  - left; reflexivity.
+  - left; reflexivity.
+  - left; reflexivity.
+  - left; reflexivity.
+Qed.
+
+Lemma called_mono cf o t g l x : called g x -> called (fst (bstep cf o t g l)) x.
+Proof.
+  unfold called. destruct (bstep_calls cf o t g l) as [E|[i [v E]]]; rewrite E; [auto|]. cbn [map fst]. intros H. now right.
+Qed.
+
+Lemma bstep_exits cf o t g l :
+  exits (fst (bstep cf o t g l)) = match in_call l with Some i => i :: exits g | None => exits g end.
+Proof.
+  destruct l; cbn [bstep in_call].
+  - destruct (spawned g t); reflexivity.
+  - destruct (cn cf =? 0); [reflexivity|]. destruct (get_chunk_size _ _); reflexivity.
+  - destruct (_ <=? _)%nat; [reflexivity|]. destruct (Nat.eqb _ _); [reflexivity|].
+    destruct (range_empty _); reflexivity.
+  - destruct (pop_step _ _ _ _ _) as [qs' r]. destruct r as [p'|[idx|]]; reflexivity.
+  - destruct (i <? e); reflexivity.
+  - reflexivity.
+  - reflexivity.
+  - reflexivity.
+  - reflexivity.
+  - reflexivity.
+  - reflexivity.
+Qed.
+
+Lemma bstep_in_call cf o t g l i :
+  in_call (snd (bstep cf o t g l)) = Some i -> called (fst (bstep cf o t g l)) i.
+Proof.
+  unfold called. destruct l; cbn [bstep].
+  - destruct (spawned g t); discriminate.
+  - destruct (cn cf =? 0); [discriminate|]. destruct (get_chunk_size _ _); discriminate.
+  - destruct (_ <=? _)%nat; [discriminate|]. destruct (Nat.eqb _ _); [discriminate|].
+    destruct (range_empty _); discriminate.
+  - destruct (pop_step _ _ _ _ _) as [qs' r]. destruct r as [p'|[idx|]]; cbn [snd in_call]; try discriminate.
+    destruct (_ <? _)%nat; discriminate.
+  - destruct (i0 <? e); cbn [fst snd in_call calls map]; [|discriminate].
+    intros H. injection H as <-. now left.
+  - cbn [snd]. destruct (cthrows cf i0); discriminate.
+  - cbn [snd]. destruct (exc_flag g); discriminate.
+  - discriminate.
+  - cbn [snd]. destruct (_ =? 0); [discriminate|]. destruct k; discriminate.
+  - cbn [snd]. destruct k; discriminate.
+  - discriminate.
+Qed.
+
+Lemma exit_inv_step cf : forall o t g ls, ExitInv g ls ->
+  ExitInv (fst (bstep cf o t g (ls t))) (upd ls t (snd (bstep cf o t g (ls t)))).
+Proof.
+  intros o t g ls [H1 H2]. split.
+  - intros x. rewrite bstep_exits. destruct (in_call (ls t)) as [i|] eqn:Ei.
+    + intros [<-|Hx]; apply called_mono; [now apply (H2 t)|now apply H1].
+    + intros Hx. apply called_mono. now apply H1.
+  - intros t' i. destruct (Nat.eq_dec t' t) as [->|Hne].
+    + rewrite upd_same. apply bstep_in_call.
+    + rewrite upd_other by exact Hne. intros Hc. apply called_mono. now apply (H2 t').
+Qed.
+
+Lemma exit_inv_run cf sched : ExitInv (fst (brun cf sched)) (snd (brun cf sched)).
+Proof.
+  unfold brun. apply (run_inv _ _ _ (bstep cf) ExitInv (exit_inv_step cf)).
+  split.
+  - intros x Hx. cbn in Hx. destruct Hx.
+  - intros t i. unfold binit, binit_locals. cbn [snd fst]. destruct (Nat.eqb t (clocal cf)); cbn [in_call]; intros H; discriminate H.
+Qed.
